@@ -51,6 +51,22 @@ impl Parent for Imp {
     fn ping(&self) -> u32 { self.id }
 }
 
+/// consuming method on a GROUP object (the group's own generated container hands out instance and context)
+#[cglue_trait]
+pub trait Fin { fn fin(self) -> u32; fn fin_peek(&self) -> u32; }
+impl Fin for Imp {
+    fn fin(self) -> u32 { unsafe { COUNT_DURING_CONSUME = self.watch.strong_count() }; self.id ^ 0xF1 }
+    fn fin_peek(&self) -> u32 { self.id }
+}
+cglue_trait_group!(FinGroup, { Fin }, { Leaf });
+cglue_impl_group!(Imp, FinGroup, { Leaf });
+
+/// a group whose implementor does NOT enable one optional trait (casts to it fail)
+#[cglue_trait]
+pub trait Never { fn never(&self) -> u32; }
+cglue_trait_group!(PartGroup, { Fin }, { Leaf, Never });
+cglue_impl_group!(Imp, PartGroup, { Leaf });
+
 /// borrowed children
 #[cglue_trait]
 pub trait Lender {
